@@ -154,6 +154,7 @@ func init() {
 			{Name: "histories", Run: codecHistories("bed")},
 			{Name: "readerzoo", TShards: 4, Run: zooUnit("bed")},
 			{Name: "exactsizes", QShards: 2, TShards: 4, Run: exactSizeUnit("bed")},
+			{Name: "tiny", TShards: 4, Run: tinyUnit("bed")},
 			firstCallUnit(firstCodec("bed")),
 		},
 	})
